@@ -83,3 +83,20 @@ pub fn provider_sub(initial: Option<Signal<Locale>>, cookie_name: Option<&'stati
     let (ctx, owner) = cell.lock().unwrap().take().expect("the provider ran its children");
     (v, ctx, owner)
 }
+
+/// The main context created the way an application does it: through the generated `<I18nContextProvider>` component.
+pub fn provider_main(enable_cookie: bool, set_dir: bool, set_lang: bool, cookie_name: Option<&'static str>, co: CookieOptions<Locale>, lo: UseLocalesOptions) -> (AnyView, I18nContext<Locale>) {
+    use crate::i18n::I18nContextProvider;
+    let cell: Arc<Mutex<Option<I18nContext<Locale>>>> = Arc::new(Mutex::new(None));
+    let c2 = cell.clone();
+    let grab = move || {
+        *c2.lock().unwrap() = Some(use_i18n());
+        "x"
+    };
+    let v = match cookie_name {
+        Some(n) => view! { <I18nContextProvider enable_cookie=enable_cookie set_dir_attr_on_html=set_dir set_lang_attr_on_html=set_lang cookie_name=n cookie_options=co ssr_lang_header_getter=lo>{grab()}</I18nContextProvider> }.into_any(),
+        None => view! { <I18nContextProvider enable_cookie=enable_cookie set_dir_attr_on_html=set_dir set_lang_attr_on_html=set_lang cookie_options=co ssr_lang_header_getter=lo>{grab()}</I18nContextProvider> }.into_any(),
+    };
+    let ctx = cell.lock().unwrap().take().expect("the provider ran its children");
+    (v, ctx)
+}
